@@ -466,7 +466,7 @@ func summarize(r *HarnessResult, verbose bool) {
 	for _, o := range r.Obligations {
 		cnt[o.Verdict]++
 	}
-	if !verbose && cnt["sat"] == 0 && cnt["unknown"] == 0 && len(r.Aborts) == 0 && r.Broken == "" {
+	if !verbose && cnt["sat"] == 0 && cnt["unknown"] == 0 && len(r.Aborts) == 0 && r.Broken == "" && r.ExecTime+r.SolverTime < 60*time.Second {
 		return
 	}
 	fmt.Printf("  %-44s mode=%-3s paths=%-4d obl=%-4d unsat=%d triv=%d sat=%d unk=%d aborts=%d exec=%.1fs solve=%.1fs %s\n",
@@ -751,7 +751,7 @@ func writeEvidence(plan *PropertyPlan, results []*HarnessResult, tier string, se
 		for k, v := range r.SolverWins {
 			wins[k] += v
 		}
-		bounds[r.Spec.Name] = fmt.Sprintf("mode=%s unwind=%d bigW=%d paths=%d", r.Spec.Mode, r.Spec.Unwind, r.Spec.BigW, r.Paths)
+		bounds[r.Spec.Name] = fmt.Sprintf("mode=%s unwind=%d bigW=%d paths=%d obligations=%d exec_s=%.1f solve_s=%.1f", r.Spec.Mode, r.Spec.Unwind, r.Spec.BigW, r.Paths, len(r.Obligations), r.ExecTime.Seconds(), r.SolverTime.Seconds())
 		for _, o := range r.Obligations {
 			obl++
 			if o.Verdict == "unsat" || o.Verdict == "trivial" {
